@@ -59,7 +59,8 @@ def run_tlc(workdir, module, cfg, env=None, workers=None, timeout=1800, extra=()
     tmp = os.path.join(workdir, "tmp")
     os.makedirs(tmp, exist_ok=True)
     e = dict(os.environ)
-    e["JAVA_TOOL_OPTIONS"] = (e.get("JAVA_TOOL_OPTIONS", "") + " -Djava.io.tmpdir=" + tmp + " -Xss64m").strip()
+    heap = " -Xmx3g" if (workers == 1) else ""
+    e["JAVA_TOOL_OPTIONS"] = (e.get("JAVA_TOOL_OPTIONS", "") + " -Djava.io.tmpdir=" + tmp + " -Xss64m" + heap).strip()
     if env:
         e.update(env)
     cmd = ["tlc", "-workers", str(workers or NCPU), "-metadir", md, "-config", cfg] + list(extra) + [module]
